@@ -35,7 +35,7 @@ import time
 import z3
 
 from pyvc.contract import VC, Res, FnTask, Task, Outcome
-from pyvc.values import State, Sym, Ref, BoundMethod, HObj, HList, HDict, HSet, Exc, Unsupported, fresh_name, sym, fresh, Event
+from pyvc.values import State, Sym, Ref, BoundMethod, HObj, HList, HDict, HSet, Exc, Unsupported, fresh_name, sym, fresh, Event, Obj
 from pyvc.smt import to_term, model_value, check_sat
 from pyvc.interp import Raised
 from pyvc import abstract as A
@@ -52,11 +52,58 @@ B_ = z3.BoolSort()
 PARAM, RESOLVE, ALIAS, UNDEF = IDT.VAR_LOAD_PARAMETER, IDT.VAR_LOAD_RESOLVE, IDT.VAR_LOAD_ALIAS, IDT.VAR_LOAD_UNDEFINED
 
 DIGITS = z3.Plus(z3.Range("0", "9"))
+IDENT_START = z3.Union(z3.Range("A", "Z"), z3.Range("a", "z"), z3.Re("_"), z3.Range(chr(0x80), chr(0x2FFFF)))
+IDENT_RE = z3.Concat(IDENT_START, z3.Star(z3.Union(IDENT_START, z3.Range("0", "9"))))
+
+
+NFKC = z3.Function("nfkc", z3.StringSort(), z3.StringSort())          # unicodedata.normalize("NFKC", s)
+ENC = z3.Function("utf8_encode", z3.StringSort(), Obj)                 # s.encode()
+HEXF = z3.Function("bytes_hex", Obj, z3.StringSort())                  # b.hex()
+HEXDIGITS = z3.Plus(z3.Union(z3.Range("0", "9"), z3.Range("a", "f")))
+
+
+def hexenc(name):
+    return HEXF(ENC(name))
 
 
 def ident(level, name):
-    """the documented identifier scheme l_<level>_<name> (src: idtracking docstrings / generated code)"""
-    return z3.Concat(z3.StringVal("l_"), models.py_str_int(level), z3.StringVal("_"), name)
+    """the identifier scheme (idtracking.Symbols._define_ref): l_<level>_<name> for a name that is its own NFKC form, else
+    l_<level>_0<hex of the UTF-8 encoding of the name> (Python compares identifiers after NFKC normalisation)"""
+    pre = z3.Concat(z3.StringVal("l_"), models.py_str_int(level), z3.StringVal("_"))
+    return z3.If(NFKC(name) == name, z3.Concat(pre, name), z3.Concat(pre, z3.StringVal("0"), hexenc(name)))
+
+
+def name_spec(*names):
+    """dependency spec of s.encode().hex(): a non-empty string of hex digits, injective in s"""
+    out = [z3.InRe(hexenc(n), HEXDIGITS) for n in names]
+    for a, b in itertools.combinations(names, 2):
+        out.append((hexenc(a) == hexenc(b)) == (a == b))
+    return out
+
+
+def install_nfkc(I):
+    import unicodedata
+
+    def normalize(I_, st, args, kwargs, node):
+        form, v = args
+        if isinstance(form, str) and isinstance(v, str):
+            return [(st, unicodedata.normalize(form, v))]
+        if form != "NFKC":
+            raise Unsupported("unicodedata.normalize form other than NFKC", node)
+        return [(st, Sym(NFKC(to_term(v, "str")), "str"))]
+
+    I.specs[("fn", id(unicodedata.normalize))] = normalize
+    I.specs["str.encode"] = lambda I_, st, args, kwargs, node: [(st, Sym(ENC(to_term(args[0], "str")), "obj"))]
+    prev = I.specs.get("method_obj")
+
+    def method_obj(I_, st, args, kwargs, node):
+        if args[1] == "hex" and len(args) == 2:
+            return [(st, Sym(HEXF(args[0].t), "str"))]
+        return prev(I_, st, args, kwargs, node) if prev else None
+
+    I.specs["method_obj"] = method_obj
+    prevg = I.specs.get("getattr_obj")
+    I.specs["getattr_obj"] = lambda I_, st, args, kwargs, node: ([(st, BoundMethod(args[0], "hex"))] if args[1] == "hex" else (prevg(I_, st, args, kwargs, node) if prevg else None))
 
 
 def str_int_spec(*levels):
@@ -97,6 +144,8 @@ def load_value_terms(v):
 
 
 def install_loads(I):
+    install_nfkc(I)
+
     def setitem(I_, st, args, kwargs, node):
         ref, key, v = args
         h = st.get(ref)
@@ -239,6 +288,8 @@ class Tab:
 
     def assume_inv(self, st, *names):
         st.assume(*str_int_spec(self.L))
+        st.assume(*name_spec(*names))
+        st.assume(*[z3.InRe(n, IDENT_RE) for n in names])  # template variable names are identifiers
         st.assume(*typed_not_none())
         for n in names:
             st.assume(self.inv_at(n), self.anc_inv_at(n))
@@ -724,7 +775,7 @@ class RefSym:
         return r
 
     def bind(self, n, load):
-        self.refs[n] = f"l_{self.level}_{n}"
+        self.refs[n] = native_ident(self.level, n)
         self.loads[self.refs[n]] = load
         return self.refs[n]
 
@@ -771,6 +822,12 @@ class RefSym:
 
 def real_state(t):
     return (t.level, dict(t.refs), dict(t.loads), set(t.stores))
+
+
+def native_ident(level, name):
+    """the identifier scheme, natively: a name that is not its own NFKC form is spelled as 0<hex of its UTF-8 encoding>"""
+    import unicodedata
+    return f"l_{level}_{name}" if unicodedata.normalize("NFKC", name) == name else f"l_{level}_0{name.encode().hex()}"
 
 
 def build_pair(spec):
@@ -824,7 +881,7 @@ def replay_symbols(w):
             if m in ("store", "load", "declare_parameter", "find_ref", "ref"):
                 args = (arg,)
             elif m == "find_load":
-                args = (f"l_{real.level}_{arg}",)
+                args = (native_ident(real.level, arg),)
             elif m == "_define_ref":
                 args = (arg, (ALIAS, "l_0_q"))
             elif m == "copy":
@@ -1086,14 +1143,16 @@ def internal_names():
     return sorted(names | set(R.exported) | set(R.async_exported))
 
 
-IDENT_START = z3.Union(z3.Range("A", "Z"), z3.Range("a", "z"), z3.Re("_"), z3.Range(chr(0x80), chr(0x2FFFF)))
-IDENT_RE = z3.Concat(IDENT_START, z3.Star(z3.Union(IDENT_START, z3.Range("0", "9"))))
 
 
 class NoAlias(VC):
     """The identifier the REAL _define_ref builds for (level, name): injective in (level, name) over identifiers and
-    non-negative levels, of the documented shape l_<digits>_<name>, and never a name the generated code uses itself
-    (t_<n> temporaries, context, environment, resolve, ...)."""
+    non-negative levels, of the documented shape (l_<digits>_<name>, or l_<digits>_0<hex> for a name that is not its own NFKC
+    form), and never a name the generated code uses itself (t_<n> temporaries, context, environment, resolve, ...).
+    LIMIT: this is injectivity of the generated STRING.  Python compares identifiers after NFKC normalisation; that step is covered
+    by the table C03.symbols.no_alias.nfkc (every identifier character, real _define_ref) and by C02.names.identifier_injective
+    (contracts of C02, hunt C03_2).  It is also injectivity in (LEVEL, name), not in (scope, name): sibling scopes of equal depth
+    share a local (C03.symbols.no_alias.sibling_scopes, known finding)."""
     prop = "C03"
     target = "jinja2.idtracking:Symbols._define_ref"
     timeout_quick = 30000
@@ -1108,20 +1167,33 @@ class NoAlias(VC):
         self.t1, self.t2 = Tab(st, False, "t1"), Tab(st, False, "t2")
         self.n1, self.n2 = sym("name1", "str"), sym("name2", "str")
         st.assume(z3.InRe(self.n1.t, IDENT_RE), z3.InRe(self.n2.t, IDENT_RE), *str_int_spec(self.t1.L, self.t2.L))
-        rs = I.call_closure(st, I.closure_of_function(IDT.Symbols._define_ref), [self.t1.ref, self.n1, (ALIAS, "x")], {})
-        assert len(rs) == 1 and rs[0][0] is st
-        self.id1 = rs[0][1]
+        st.assume(*name_spec(self.n1.t, self.n2.t))
         return [self.t2.ref, self.n2, (ALIAS, "x")], {}
 
+    def paths(self, I):
+        """the real _define_ref is run for (level1, name1) and then for (level2, name2): every pair of its paths"""
+        st = State()
+        self.configure(I)
+        args, kwargs = self.setup(I, st)
+        pre = st.fork()
+        clo = self.closure(I)
+        outs = []
+        for s1, id1 in I.call_closure(st, clo, [self.t1.ref, self.n1, (ALIAS, "x")], {}):
+            for s2, v in I.call_closure(s1, clo, list(args), {}):
+                o = Outcome(s2, "raise" if isinstance(v, Raised) else "return", v.exc if isinstance(v, Raised) else v, len(outs))
+                o.id1 = id1
+                outs.append(o)
+        return pre, outs
+
     def p_injective(self, pre, out):
-        if out.raised or not isinstance(out.value, Sym) or not isinstance(self.id1, Sym):
+        if out.raised or not isinstance(out.value, Sym) or not isinstance(out.id1, Sym):
             return False
-        return z3.Implies(self.id1.t == out.value.t, z3.And(self.t1.L == self.t2.L, self.n1.t == self.n2.t))
+        return z3.Implies(out.id1.t == out.value.t, z3.And(self.t1.L == self.t2.L, self.n1.t == self.n2.t))
 
     def p_shape(self, pre, out):
         if out.raised or not isinstance(out.value, Sym):
             return False
-        return z3.InRe(out.value.t, z3.Concat(z3.Re("l_"), DIGITS, z3.Re("_"), IDENT_RE))
+        return z3.InRe(out.value.t, z3.Concat(z3.Re("l_"), DIGITS, z3.Re("_"), z3.Union(IDENT_RE, z3.Concat(z3.Re("0"), HEXDIGITS))))
 
     def p_not_internal(self, pre, out):
         if out.raised or not isinstance(out.value, Sym):
@@ -1158,8 +1230,8 @@ def replay_no_alias(w):
         seen[i] = (lv, nm)
         if i in internal or re.fullmatch(r"t_\d+|block_.*", i):
             problems.append(f"(level={lv}, name={nm!r}) gets the compiler-internal name {i!r}")
-        if not re.fullmatch(rf"l_{lv}_{re.escape(nm)}", i):
-            problems.append(f"(level={lv}, name={nm!r}) -> {i!r}, documented l_{lv}_{nm}")
+        if i != native_ident(lv, nm):
+            problems.append(f"(level={lv}, name={nm!r}) -> {i!r}, documented {native_ident(lv, nm)}")
     bad, det = native_scoping()
     if bad:
         problems.append(det)
@@ -1223,8 +1295,10 @@ def inner_analysed(cls, **kw):
 SCOPES = {
     "For": dict(outer={"iter"}, scoped={"target", "body", "else_", "test"}, no_leak={"target", "body", "else_"}, n_inner=3),
     "With": dict(outer={"values"}, scoped={"targets", "body"}, no_leak={"targets", "body"}, n_inner=1),
-    "FilterBlock": dict(outer=set(), scoped={"body", "filter"}, no_leak={"body"}, n_inner=1),
-    "AssignBlock": dict(outer={"target"}, scoped={"body", "filter"}, no_leak={"body"}, n_inner=1),
+    # the filter of a filter block / filtered set block is written in the opening tag, outside the body: like with-values, the
+    # loop iterable and call arguments it belongs to the enclosing scope (only the filtered VALUE comes from the body's buffer)
+    "FilterBlock": dict(outer={"filter"}, scoped={"body"}, no_leak={"body"}, n_inner=1, outer_copy=True),
+    "AssignBlock": dict(outer={"target", "filter"}, scoped={"body"}, no_leak={"body"}, n_inner=1, outer_copy=True),
     "Scope": dict(outer=set(), scoped={"body"}, no_leak={"body"}, n_inner=1),
     "Macro": dict(outer=set(), scoped={"defaults", "body"}, no_leak={"args", "body"}, n_inner=1),
     "CallBlock": dict(outer={"call"}, scoped={"defaults", "body"}, no_leak={"args", "body"}, n_inner=1),
@@ -1260,9 +1334,10 @@ def record_frames(I):
         # Node.find_all(cls): an arbitrary number of descendants of that class (abstract list)
         from pyvc import emit
         cls = args[1]
-        if isinstance(cls, tuple):
-            raise Unsupported("find_all of several classes", node)
         h = st.get(args[0])
+        if isinstance(cls, tuple):
+            # descendants of several classes: an abstract list whose (never materialised) elements have the first class's fields
+            return [(st, st.alloc(emit.HNodeList(cls[0], f"{h.path}.find_all({'|'.join(c.__name__ for c in cls)})", kind="stmt")))]
         return [(st, st.alloc(emit.HNodeList(cls, f"{h.path}.find_all({cls.__name__})", kind="expr")))]
 
     I.specs["Node.find_all"] = find_all
@@ -1416,6 +1491,12 @@ class ScopeDiscipline(Task):
             if any(e.name in ("enter_frame", "leave_frame") for e in evs):
                 fail("frames", "visit_If enters / leaves a frame although `if` shares the enclosing scope")
             return fails
+        outer_frames = [outer_frame]
+        if spec.get("outer_copy"):
+            # a copy of the enclosing frame (same table, same level) that only carries the body's buffer is the enclosing scope
+            copies = [e for e in soft if e.name == "frame.copy" and e.args[0] == outer_frame]
+            outer_frames += [e.result for e in copies]
+            soft = [e for e in soft if e not in copies]
         if len(inner) != spec["n_inner"] or soft or any(e.args[0] != outer_frame or e.kwargs or len(e.args) > 1 for e in inner):
             fail("frames", f"expected {spec['n_inner']} frame.inner() of the enclosing frame and no soft frame: inner={len(inner)} soft={len(soft)} "
                            f"kwargs={[e.kwargs for e in inner]}")
@@ -1436,14 +1517,14 @@ class ScopeDiscipline(Task):
             if fld is None:
                 continue
             if fld in spec["outer"]:
-                if fr != outer_frame:
-                    fail(fld, f"field `{fld}` belongs to the enclosing scope but is visited in an inner frame")
+                if fr not in outer_frames:
+                    fail(fld, f"field `{fld}` belongs to the enclosing scope but is compiled in the construct's inner frame (assignments of the body are visible to it)")
                 elif fld not in outer_set:
                     fail(fld, f"field `{fld}` is visited in the enclosing frame but FrameSymbolVisitor.visit_{self.cls_name} does not analyse it there")
                 continue
             if fld in spec["scoped"]:
                 if fr not in frames:
-                    fail(fld, f"field `{fld}` must be rendered in the construct's own fresh scope but is visited in {'the enclosing frame' if fr == outer_frame else 'another frame'}")
+                    fail(fld, f"field `{fld}` must be rendered in the construct's own fresh scope but is visited in {'the enclosing frame' if fr in outer_frames else 'another frame'}")
                     continue
                 an = analysed_kw.get(fr, [])
                 if not an or min(p for p, _kw in an) > k:
@@ -1490,6 +1571,10 @@ def replay_scopes(w):
         ("{% for x in [] %}{% else %}{{ e }}{% endfor %}", {"e": "E"}, "E"),
         ("{% with a = b %}{{ a }}{% set c = 1 %}{% endwith %}[{{ a }}{{ c }}]", {"b": 5}, "5[]"),
         ("{% filter replace('a', r) %}aa{% set q = 1 %}{% endfilter %}[{{ q }}]", {"r": "b"}, "bb[]"),
+        ("{% filter replace('a', x) %}{% set x = 'b' %}aaa{% endfilter %}|{{ x }}", {"x": "c"}, "ccc|c"),
+        ("{% set x = 'c' %}{% filter replace('a', x) %}{% set x = 'b' %}aaa{% endfilter %}|{{ x }}", {}, "ccc|c"),
+        ("{% set y | replace('a', x) %}{% set x = 'b' %}aaa{% endset %}{{ y }}|{{ x }}", {"x": "c"}, "ccc|c"),
+        ("{% set x = 'q' %}{% set x | replace('a', x) %}aXa{% endset %}{{ x }}", {}, "qXq"),
         ("{% set x %}a{% set q = 1 %}{% endset %}{{ x }}[{{ q }}]", {}, "a[]"),
         ("{% set x | replace('a', r) %}aXa{% endset %}{{ x }}", {"r": "b"}, "bXb"),
         ("{% for i in [1] %}{% set x | replace('a', r) %}aXa{% endset %}{{ x }}{% endfor %}", {"r": "b"}, "bXb"),
@@ -1507,11 +1592,11 @@ def replay_scopes(w):
         if got != want:
             problems.append(f"{src!r} with {data!r}: {got!r}, scoping rules give {want!r}")
     key = (w or {}).get("key", "")
-    if key == "AssignBlock.filter":
-        problems = [p for p in problems if "set x |" in p] or problems
-    elif problems:
-        other = [p for p in problems if "set x |" not in p]
-        problems = other or ([] if key else problems)
+    mine = lambda p: ("{% set y |" in p or "{% set x |" in p) if key.startswith("AssignBlock") else ("{% filter replace('a', x)" in p)
+    if key.startswith(("AssignBlock.", "FilterBlock.")):
+        problems = [p for p in problems if mine(p)]
+    elif key:
+        problems = [p for p in problems if "replace('a', x)" not in p]
     return (bool(problems), "; ".join(problems[:2]) or "scope constructs keep their assignments and resolve their header names")
 
 
@@ -2055,7 +2140,10 @@ class NamespaceVC(VC):
     def p_get(self, pre, out):
         if self.method != "__getattribute__":
             return None
-        reserved = z3.Or(self.n.t == z3.StringVal("_Namespace__attrs"), self.n.t == z3.StringVal("__class__"))
+        # names of the Python object protocol (__class__, __html__, __aiter__, ...: `__x__`) and the private dict itself are never
+        # served from the attributes (they are looked up on the object); every other name - what a template can sensibly store - is
+        dunder = z3.And(z3.PrefixOf(z3.StringVal("__"), self.n.t), z3.SuffixOf(z3.StringVal("__"), self.n.t))
+        reserved = z3.Or(self.n.t == z3.StringVal("_Namespace__attrs"), dunder)
         delegated = A.calls(out, "object.__getattribute__")
         if delegated:
             return z3.And(reserved, out.returned and out.value is delegated[0].result)
@@ -2089,7 +2177,7 @@ def replay_namespace(w):
     problems = []
     name = (w or {}).get("name") or "found"
     for nm in {name, "found", "x", "_p", "items"}:
-        if not isinstance(nm, str) or nm in ("_Namespace__attrs", "__class__"):
+        if not isinstance(nm, str) or nm == "_Namespace__attrs" or (nm.startswith("__") and nm.endswith("__")):
             continue
         ns = U.Namespace({"other": 1}, keep=2)
         ns[nm] = 42
@@ -2451,6 +2539,243 @@ def literal_identifiers(task, tier, seed):
     return rs
 
 
+# ------------------------------------------------------------------ hunt round: NFKC, find_undeclared, sibling scopes
+
+def nfkc_table(task, tier, seed):
+    """C03.symbols.no_alias.nfkc (table over all code points): Python compares identifiers after NFKC normalisation, so the
+    Python locals of two DIFFERENT template names must differ after NFKC too.  Every identifier character c is tried in the
+    names c (or a+c) against their NFKC forms, through the real Symbols._define_ref.  (The string lemma C03.symbols.no_alias
+    proves injectivity of the generated string; this table, and C02.names.identifier_injective, cover what Python does with it.)"""
+    import unicodedata
+    bad = []
+    n = 0
+    t = IDT.Symbols(level=0)
+    for cp in range(0x80, 0x30000):
+        ch = chr(cp)
+        name = ch if ch.isidentifier() else ("a" + ch if ("a" + ch).isidentifier() else None)
+        if name is None:
+            continue
+        norm = unicodedata.normalize("NFKC", name)
+        if norm == name or not norm.isidentifier():
+            continue
+        n += 1
+        i1, i2 = t._define_ref(name, load=(ALIAS, "x")), t._define_ref(norm, load=(ALIAS, "x"))
+        if unicodedata.normalize("NFKC", i1) == unicodedata.normalize("NFKC", i2) or not i1.isidentifier():
+            bad.append((name, norm, i1, i2))
+    ok = not bad
+    return [Res("C03.symbols.no_alias.nfkc", "discharged" if ok else "refuted", "table", 0,
+                f"{n} names that differ from their NFKC form get a local that differs, after NFKC, from the local of the normalised name" if ok else
+                f"{len(bad)} pairs of distinct names share one Python local after NFKC, e.g. {bad[0][0]!r} (U+{ord(bad[0][0][-1]):04X}) and {bad[0][1]!r} -> {bad[0][2]!r} / {bad[0][3]!r}",
+                "table", None if ok else {"key": "nfkc-equivalent-names", "name1": bad[0][0], "name2": bad[0][1]})]
+
+
+def replay_nfkc(w):
+    import jinja2
+    env = jinja2.Environment()
+    problems = []
+    cases = [("{% set \ufb01 = 1 %}{% set fi = 2 %}{{ \ufb01 }}|{{ fi }}", {}, "1|2"), ("{% set fi = 2 %}{{ \ufb01 }}|{{ fi }}", {"\ufb01": 9}, "9|2"),
+             ("{% with \ufb01 = 1, fi = 2 %}{{ \ufb01 }}{% endwith %}", {}, "1"), ("{% set \xb5 = 'micro' %}{% set \u03bc = 'mu' %}{{ \xb5 }}", {}, "micro"),
+             ("{% for x in [1,2] %}{% set \uff4coop = 9 %}{{ loop.index }}{% endfor %}", {}, "12")]
+    n1, n2 = (w or {}).get("name1"), (w or {}).get("name2")
+    if n1 and n2:
+        cases.append(("{%% set %s = 1 %%}{%% set %s = 2 %%}{{ %s }}|{{ %s }}" % (n1, n2, n1, n2), {}, "1|2"))
+    for src, data, want in cases:
+        try:
+            got = env.from_string(src).render(data)
+        except Exception as ex:
+            got = f"{type(ex).__name__}: {ex}"
+        if got != want:
+            problems.append(f"{src!r} with {data!r}: {got!r}, distinct identifiers give {want!r}")
+    return (bool(problems), "; ".join(problems[:3]) or "NFKC-equivalent names are separate variables")
+
+
+# ---- find_undeclared (compiler.UndeclaredNameVisitor): used by visit_For to decide whether the body reads `loop`
+
+def _load(n):
+    return N.Output([N.Name(n, "load")])
+
+
+def undeclared_family(n="loop"):
+    """[(label, class, nodes, reads_n_free)]: statement lists in which a nested scope binds the watched name (as a parameter /
+    with target) before, after or around a read of it; `reads_n_free` by the scoping rules: a with target is bound in the with
+    body only and its values are evaluated outside; macro / call block parameters are bound in that macro / call body only"""
+    m_call = lambda: N.Call(N.Name("m", "load"), [], [], None, None)
+    binders = {
+        "macro_param": lambda body: N.Macro("m", [N.Name(n, "param")], [], body),
+        "call_param": lambda body: N.CallBlock(m_call(), [N.Name(n, "param")], [], body),
+        "with_target": lambda body: N.With([N.Name(n, "param")], [N.Const(5)], body),
+    }
+    plain = {
+        "with": lambda body: N.With([], [], body), "filter": lambda body: N.FilterBlock(body, N.Filter(None, "upper", [], [], None, None)),
+        "setblock": lambda body: N.AssignBlock(N.Name("y", "store"), None, body), "if": lambda body: N.If(N.Const(1), body, [], []),
+        "for": lambda body: N.For(N.Name("z", "store"), N.Const(()), body, [], None, False), "macro": lambda body: N.Macro("k", [], [], body),
+    }
+    fam = []
+    for bn, b in binders.items():
+        fam.append((f"{bn}[read inside];", bn, [b([_load(n)])], False))
+        fam.append((f"{bn}[read inside]; read", bn, [b([_load(n)]), _load(n)], True))
+        fam.append((f"{bn}[]; read", bn, [b([]), _load(n)], True))
+        fam.append((f"read; {bn}[read inside]", bn, [_load(n), b([_load(n)])], True))
+        for pn, p in plain.items():
+            fam.append((f"{pn}[{bn}[read inside]; read]", bn, [p([b([_load(n)]), _load(n)])], True))
+            fam.append((f"{bn}[{pn}[read]]", bn, [b([p([_load(n)])])], False))
+            fam.append((f"{bn}[]; {pn}[read]", bn, [b([]), p([_load(n)])], True))
+    # evaluation order of a with statement: values (outside) before targets
+    fam.append(("with n = n [read inside]", "with_value_order", [N.With([N.Name(n, "param")], [N.Name(n, "load")], [_load(n)])], True))
+    fam.append(("with q = n, n = 1 []", "with_value_order", [N.With([N.Name("q", "param"), N.Name(n, "param")], [N.Name(n, "load"), N.Const(1)], [])], True))
+    fam.append(("with n = 1, q = n []", "with_value_order", [N.With([N.Name(n, "param"), N.Name("q", "param")], [N.Const(1), N.Name(n, "load")], [])], True))
+    # defaults of a macro are evaluated inside the macro scope, where an EARLIER parameter of that name shadows
+    fam.append(("macro m(p = n) []", "macro_default", [N.Macro("m", [N.Name("p", "param")], [N.Name(n, "load")], [])], True))
+    return fam
+
+
+UNDECLARED_TEMPLATES = [
+    ("macro_param", "{% for x in [1,2] %}{% macro m(loop) %}{{ loop }}{% endmacro %}[{{ loop.index }}]{% endfor %}", "[1][2]"),
+    ("with_target", "{% for x in [1,2] %}{% with loop = 5 %}{{ loop }}{% endwith %}[{{ loop.index }}]{% endfor %}", "5[1]5[2]"),
+    ("call_param", "{% macro m() %}{{ caller(7) }}{% endmacro %}{% for x in [1,2] %}{% call(loop) m() %}{{ loop }}{% endcall %}[{{ loop.index }}]{% endfor %}", "7[1]7[2]"),
+    ("with_value_order", "{% for x in 'ab' %}{% with loop = loop %}{{ loop.index }}{% endwith %}{% endfor %}", "12"),
+    ("with_value_order", "{% for x in 'ab' %}{% with q = loop.index, loop = 0 %}{{ q }}{{ loop }}{% endwith %}{% endfor %}", "1020"),
+    ("plain", "{% for x in 'ab' %}{% with q = 1 %}{{ loop.index }}{% endwith %}{% endfor %}", "12"),
+]
+
+
+def undeclared_problems():
+    import jinja2
+    out = []
+    for n, others in (("loop", ()), ("loop", ("zz",))):
+        for label, cls, nodes_, want in undeclared_family(n):
+            got = n in C.find_undeclared(nodes_, (n,) + others)
+            if got != want:
+                out.append((cls, f"find_undeclared([{label}], {(n,) + others}) says {n!r} is {'read' if got else 'not read'} by the enclosing body; by the scoping rules it is "
+                                 f"{'read (the binding belongs to the nested scope only)' if want else 'not read'}"))
+    env = jinja2.Environment()
+    for cls, src, want in UNDECLARED_TEMPLATES:
+        try:
+            got = env.from_string(src).render()
+        except Exception as ex:
+            got = f"{type(ex).__name__}: {ex}"
+        if got != want:
+            out.append((cls, f"{src!r}: {got!r}, expected {want!r}"))
+    return out
+
+
+def undeclared_bounded(task, tier, seed):
+    """C03.visitors.find_undeclared: visit_For makes `loop` available iff find_undeclared reports a free read of it in the body.  The
+    real function is compared with the scoping rules on every member of a family of nested-scope shapes (bounded, exhaustive)."""
+    ps = undeclared_problems()
+    fam = undeclared_family()
+    task.bound_text = f"{len(fam)} statement lists (binder in {{macro parameter, call-block parameter, with target}} x position x 6 plain nesting constructs, with-value order) x 2 watched-name sets, and {len(UNDECLARED_TEMPLATES)} templates"
+    rs = [Res("C03.visitors.find_undeclared", "bounded-ok", "native", 0, f"{2 * len(fam) + len(UNDECLARED_TEMPLATES) - len(ps)} cases agree with the scoping rules", "bounded")]
+    by = {}
+    for cls, det in ps:
+        by.setdefault(cls, []).append(det)
+    for cls, dets in sorted(by.items()):
+        rs.append(Res("C03.visitors.find_undeclared", "refuted", "native", 0, f"{len(dets)} cases: " + "; ".join(dets[:2])[:800], "bounded", {"key": cls}))
+    return rs
+
+
+def replay_undeclared(w):
+    ps = [p for p in undeclared_problems() if not (w or {}).get("key") or p[0] == w["key"]]
+    return (bool(ps), "; ".join(d for _c, d in ps[:2])[:1000] or "find_undeclared agrees with the scoping rules on the family")
+
+
+# ---- sibling scopes share one Python local: observable through a closure that outlives its scope
+
+class SiblingScopes(VC):
+    """Two DIFFERENT scopes of equal depth under one parent (two with blocks, two loops, a loop's iterations) define the same
+    name: the real _define_ref gives both the SAME Python local.  That is only sound while the lifetimes of the two variables
+    cannot overlap; a macro (a closure over the local) stored in a namespace attribute outlives its scope and then reads the
+    sibling scope's variable or the `missing` sentinel (C03.bounded.escaped_closure)."""
+    prop = "C03"
+    target = "jinja2.idtracking:Symbols._define_ref"
+
+    def __init__(self):
+        super().__init__("C03", "C03.symbols.no_alias.sibling_scopes")
+
+    def configure(self, I):
+        install_loads(I)
+
+    def setup(self, I, st):
+        self.t1, self.t2 = Tab(st, False, "scope1"), Tab(st, False, "scope2")
+        self.n = sym("name", "str")
+        st.assume(self.t1.L == self.t2.L, z3.InRe(self.n.t, IDENT_RE), *str_int_spec(self.t1.L), *name_spec(self.n.t))
+        return [self.t2.ref, self.n, (ALIAS, "x")], {}
+
+    def paths(self, I):
+        st = State()
+        self.configure(I)
+        args, kwargs = self.setup(I, st)
+        pre = st.fork()
+        clo = self.closure(I)
+        outs = []
+        for s1, id1 in I.call_closure(st, clo, [self.t1.ref, self.n, (ALIAS, "x")], {}):
+            for s2, v in I.call_closure(s1, clo, list(args), {}):
+                o = Outcome(s2, "raise" if isinstance(v, Raised) else "return", v.exc if isinstance(v, Raised) else v, len(outs))
+                o.id1 = id1
+                outs.append(o)
+        return pre, outs
+
+    def p_distinct(self, pre, out):
+        if out.raised or not isinstance(out.value, Sym):
+            return False
+        return out.id1.t != out.value.t
+
+    posts = [("different_scopes_get_different_locals", p_distinct)]
+
+    def finding_key(self, res):
+        return "sibling-scopes-share-local"
+
+    def concretize(self, model, pre, out):
+        return {"key": "sibling-scopes-share-local", "name": model_value(model, self.n.t)}
+
+    def replay(self, w):
+        return replay_escaped(w)
+
+
+_PRE = "{% set ns = namespace(f=none) %}"
+ESCAPED = [
+    ("with/with", _PRE + "{% with x = 1 %}{% macro m() %}[{{ x }}]{% endmacro %}{% set ns.f = m %}{% endwith %}{% with x = 2 %}{{ ns.f() }}{% endwith %}"),
+    ("with/other name", _PRE + "{% with x = 1 %}{% macro m() %}[{{ x }}]{% endmacro %}{% set ns.f = m %}{% endwith %}{% with y = 2 %}{{ ns.f() }}{% endwith %}"),
+    ("for/for", _PRE + "{% for x in [1] %}{% macro m() %}[{{ x }}]{% endmacro %}{% set ns.f = m %}{% endfor %}{% for x in [2] %}{{ ns.f() }}{% endfor %}"),
+    ("for/after", _PRE + "{% for x in [1] %}{% macro m() %}[{{ x }}]{% endmacro %}{% set ns.f = m %}{% endfor %}{{ ns.f() }}"),
+    ("iterations", _PRE + "{% for x in [1,2] %}{% if ns.f %}{{ ns.f() }}{% endif %}{% macro m() %}[{{ x }}]{% endmacro %}{% if not ns.f %}{% set ns.f = m %}{% endif %}{% endfor %}"),
+    ("with set/with set", _PRE + "{% with %}{% set x = 1 %}{% macro m() %}[{{ x }}]{% endmacro %}{% set ns.f = m %}{% endwith %}{% with %}{% set x = 2 %}{{ ns.f() }}{% endwith %}"),
+    ("control: macro scope", _PRE + "{% macro outer(x) %}{% macro m() %}[{{ x }}]{% endmacro %}{% set ns.f = m %}{% endmacro %}{{ outer(1) }}{% with x = 2 %}{{ ns.f() }}{% endwith %}"),
+]
+
+
+def escaped_problems():
+    import jinja2
+    env = jinja2.Environment()
+    out = []
+    for label, src in ESCAPED:
+        try:
+            got = env.from_string(src).render()
+        except Exception as ex:
+            got = f"{type(ex).__name__}: {ex}"
+        # the macro reads the variable of the scope it was written in ([1]); a dead scope's variable may at most be undefined ([])
+        if got not in ("[1]", "[]"):
+            out.append((label, f"[{label}] {src!r}: {got!r} - the escaped macro reads another scope's variable or the `missing` sentinel; the scoping rules give '[1]' (at least '[]')"))
+    return out
+
+
+def escaped_bounded(task, tier, seed):
+    ps = escaped_problems()
+    task.bound_text = f"{len(ESCAPED)} templates: a macro defined in a with / for scope, kept in a namespace attribute and called from a sibling scope, a later iteration or after the scope"
+    rs = [Res("C03.bounded.escaped_closure", "bounded-ok", "native", 0, f"{len(ESCAPED) - len(ps)} of {len(ESCAPED)} templates agree", "bounded")]
+    if ps:
+        rs.append(Res("C03.bounded.escaped_closure", "refuted", "native", 0, f"{len(ps)} templates: " + "; ".join(d for _l, d in ps[:2])[:800], "bounded", {"key": "sibling-scopes-share-local"}))
+    return rs
+
+
+def replay_escaped(w):
+    ps = escaped_problems()
+    return (bool(ps), "; ".join(d for _l, d in ps[:2])[:1000] or "escaped macros read their own scope's variable")
+
+
+HUNT_TASKS = [FnTask("C03", "C03.symbols.no_alias.nfkc", nfkc_table, "table", replay_nfkc), SiblingScopes()]
+
+
 # ------------------------------------------------------------------ bounded differential stand-in (end to end)
 
 KNOWN_CLASSES = ("dead-read-changes-output",)  # listed in known_findings.d/c03.json
@@ -2532,6 +2857,8 @@ def _tuples_to_lists(x):
 
 N_BOUNDED = 4
 BOUNDED_TASKS = [Bounded("C03", f"C03.bounded.scoping[{i}]", bounded_scoping(i, N_BOUNDED), "bounded", replay_bounded) for i in range(N_BOUNDED)]
+for _t in BOUNDED_TASKS[2:]:
+    _t.thorough_only = True  # two of the four stand-in shards run in the thorough tier only (no deciding obligation among them)
 
 
 # ------------------------------------------------------------------ branch_update: order independence of the set iteration
@@ -2779,7 +3106,7 @@ SYMBOL_TASKS = (
 )
 FRAME_TASKS = [FrameInit(True), FrameInit(False), FrameInner(False), FrameInner(True), FrameCopy("copy"), FrameCopy("soft")]
 TABLE_TASKS = [BranchUpdateCommutes(True), BranchUpdateCommutes(False), Bounded("C03", "C03.symbols.tables.bounded", bounded_tables, "bounded", replay_tables)]
-TASKS = SCOPE_TASKS + SYMBOL_TASKS + TABLE_TASKS + FRAME_TASKS + tracking_tasks() + [FnTask("C03", "C03.enter_leave_frame", enter_leave_frame, "emission", replay_enter_leave)] + namespace_tasks() + BOUNDED_TASKS
+TASKS = SCOPE_TASKS + SYMBOL_TASKS + TABLE_TASKS + FRAME_TASKS + HUNT_TASKS + tracking_tasks() + [FnTask("C03", "C03.enter_leave_frame", enter_leave_frame, "emission", replay_enter_leave)] + namespace_tasks() + [Bounded("C03", "C03.visitors.find_undeclared", undeclared_bounded, "bounded", replay_undeclared), Bounded("C03", "C03.bounded.escaped_closure", escaped_bounded, "bounded", replay_escaped)] + BOUNDED_TASKS
 META = {
     "level": "other",
     "explanation": (
